@@ -217,6 +217,11 @@ func genC10(r *simrt.Rand, tier string, idx uint64) *Plan {
 			p.Streams[k].Sizes = append(p.Streams[k].Sizes, 9)
 		}
 		p.Clients = append(p.Clients, ClientPlan{Conn: 0, Ops: ops})
+		if k == 0 && r.Chance(1, 2) {
+			// two goroutines blocked in ReadMessage on each end of the stream that will be hit
+			p.Streams[0].Readers2 = true
+			p.Clients = append(p.Clients, ClientPlan{Conn: 0, Ops: []Op{{Kind: "await", Stream: 0, Shape: 0}, {Kind: "sread", Stream: 0, N: 1 + r.Intn(2)}}})
+		}
 	}
 	// a sibling unary caller
 	p.Clients = append(p.Clients, ClientPlan{Conn: 0, Ops: []Op{{Kind: "call", Size: 9, Rep: 9, CtxBuf: -1}, {Kind: "sleep", N: 2000}, {Kind: "call", Size: 9, Rep: 9, CtxBuf: -1}}})
